@@ -47,7 +47,22 @@ def corr_ops(ctx):
         if rnd.random() < (1.0 if ctx.thorough else 0.3):
             ops.append('absolute_from\t' + hx(rnd.choice(roots)) + '\t' + hx(p))
             ops.append('absolute_from_unit\t' + hx(rnd.choice(['/q/x.container', '/q/sub/y.kube', '/z.build'])) + '\t' + hx(p))
+    # the call sites that decide between "a path" and "something else" (a URL, a specifier): model and code on the same units
+    WD = ['httpd/ctx', 'http', 'https', 'http://h/x', 'https://h', 'https://', 'git://h/r', 'git:/x', 'github.com/u/r', 'github.com/', 'x/github.com/u', 'src/https://h/x', './m/git://h',
+          'a/b', '.', '..', '../', '/abs', '%h/x', 'unit', 'yaml', 'file', 'File', '', 'ftp://h/x', 'HTTP://h/x', 'http://a\\nb']
+    for _ in range(600 if ctx.thorough else 150):
+        v, f = rnd.choice(WD), rnd.choice(WD + ['/f', 'Containerfile'])
+        if rnd.random() < 0.6:
+            text = f'[Build]\nImageTag=t\nFile={f}\n' + (f'SetWorkingDirectory={v}\n' if rnd.random() < 0.8 else '')
+            ops.append(f'convert\t0\t0\t{hx(rnd.choice(["/q/u.build", "/q/sub dir/u.build"]))}\t{hx(text)}')
+        else:
+            text = f'[Kube]\nYaml={rnd.choice(["/k.yaml", "k.yaml", "https://h/k.yaml", "httpd/k.yaml"])}\nSetWorkingDirectory={v}\n'
+            ops.append(f'convert\t0\t0\t/q/u.kube'.replace('/q/u.kube', hx('/q/u.kube')) + f'\t{hx(text)}')
     return ops
+
+
+def project(op, out):
+    return canon.canon_result(out) if op.startswith('convert') else out
 
 
 def ref_clean_abs(p):
@@ -102,7 +117,12 @@ def oracle(ctx):
     for _ in range(300 if ctx.thorough else 80):
         unitdir = rnd.choice(['/q', '/q/sub dir', '/etc/containers/systemd/users/1000'])
         r = rnd.choice(rels)
-        kind = rnd.choice(['yaml', 'configmap', 'envfile', 'volume', 'mount', 'wd-yaml', 'wd-file'])
+        kind = rnd.choice(['yaml', 'configmap', 'envfile', 'volume', 'mount', 'wd-yaml', 'wd-file', 'wd-custom', 'wd-custom'])
+        if kind == 'wd-custom':
+            # a custom working directory: any relative path — also one whose later components look like something else (a URL scheme, a
+            # specifier, a git host) — is resolved against the unit directory
+            r = rnd.choice([x for x in rels if not x.startswith(('/', '%'))] + ['src-cache/https://git.example.org/app', './m/git://host/x', 'a/http://b', 'vendor/github.com/x/y',
+                                                                              'x/%h/y', 'httpd/ctx', 'git/repo', 'a/../https:/b'])
         cases.append((unitdir, r, kind))
     ops = []
     for unitdir, r, kind in cases:
@@ -118,6 +138,8 @@ def oracle(ctx):
             # every mount type whose source is a path of the host (bind, glob) or goes through the same resolver (volume, image)
             mt = rnd.choice(['bind', 'bind', 'glob', 'glob', 'volume', 'image'])
             ops.append(('container', f'[Container]\nImage=i\nMount=type={mt},{rnd.choice(["source", "src"])}={r},target=/t\n'))
+        elif kind == 'wd-custom':
+            ops.append(rnd.choice([('kube', f'[Kube]\nYaml=/k.yaml\nSetWorkingDirectory={r}\n'), ('build', f'[Build]\nImageTag=t\nFile=/f\nSetWorkingDirectory={r}\n')]))
         elif kind == 'wd-yaml':
             ops.append(('kube', f'[Kube]\nYaml={r}\nSetWorkingDirectory=yaml\n'))
         else:
@@ -144,9 +166,12 @@ def oracle(ctx):
             fail = f'-v != {resolved + ":/c"!r}: {words}'
         elif kind == 'mount' and r.startswith('.') and ('--mount' not in words or f'source={resolved}' not in words[words.index('--mount') + 1].split(',')):
             fail = f'--mount source != {resolved!r}: {words}'
-        elif kind in ('wd-yaml', 'wd-file') and not spec:
+        elif kind in ('wd-yaml', 'wd-file', 'wd-custom') and not spec and not (kind == 'wd-custom' and r in ('yaml', 'file', 'unit')):
             wd = [v for k, v in rr[2].get('Service', []) if k == 'WorkingDirectory']
-            want = posixpath.dirname(resolved) or '/'
+            want = (posixpath.dirname(resolved) or '/') if kind != 'wd-custom' else resolved
+            if kind == 'wd-custom' and unhx(line.split('\t')[3]).endswith('.build'):
+                # a .build keeps the custom value as the context argument of `podman build` and anchors it by running in the unit directory
+                want = ref_clean_abs(unitdir)
             if not wd or wd[-1] != want.replace(' ', ' '):
                 # the raw value is the quoted form; compare unquoted
                 uq = ctx.impl(['unquote\t' + hx(wd[-1])])[0] if wd else ''
